@@ -180,6 +180,15 @@ theorem decline_flushes_until_forced :
       .fired .declined (some ⟨2,0,2,false,false⟩) true, .report .declined 0 2,
       .prompt ⟨3,0,3,true,false⟩]] := by decide
 
+/-- A pack whose id is already applied is queued again and DISCARDED: the call returns and the applied pack is forgotten
+    (the state update every status performs is part of the model, see `legacy_status_cases`). -/
+theorem discarded_forgets_applied_pack :
+    (runL false {} [.queue ⟨1,1,1,false,false⟩, .response .successful 0 0, .queue ⟨2,1,1,false,false⟩,
+                    .response .discarded 0 0]).1 = ({} : LSt) ∧
+    (runL false {} [.queue ⟨1,1,1,false,false⟩, .response .successful 0 0, .queue ⟨2,1,1,false,false⟩]).1.applied =
+      some ⟨1,1,1,false,false⟩ := by
+  constructor <;> decide
+
 /-! ### 7. the model's shape is the source's shape (regenerated facts) -/
 
 /-- Only the entry points take the legacy handler's mutex; `tickResourcePackQueue` and `handleResponse` do not, and
@@ -191,6 +200,53 @@ theorem legacy_lock_regions :
     "h.OnResourcePackResponse" ∉ Gate.Gen.C27.legacyTickCalls ∧ "h.onResourcePackResponse" ∉ Gate.Gen.C27.legacyTickCalls ∧
     "h.Lock" ∉ Gate.Gen.C27.legacyHandleResponseCalls ∧ "h.RLock" ∉ Gate.Gen.C27.legacyHandleResponseCalls ∧
     "h.tickResourcePackQueue" ∉ Gate.Gen.C27.legacyHandleResponseCalls := by decide
+
+/-- Closed world: everything that runs with the legacy handler's mutex held — `handleResponse`, `tickResourcePackQueue`
+    and what they call on the handler (`HandleResponseResult`, `SendResourcePackRequestPacket`, the event's kick
+    predicate) down to the package helpers — calls only functions from this list, none of which takes the handler's
+    mutex.  Any new call from a locked region (e.g. a locking accessor such as `ClearAppliedResourcePacks`) breaks
+    this obligation. -/
+def lockFreeCalls : List String :=
+  ["return", "new", "len",
+   -- the queue, the player, the event, the backend
+   "h.outstandingPacks.Front", "h.outstandingPacks.Len", "h.outstandingPacks.TryPopFront", "h.outstandingPacks.PushBack",
+   "h.player.Protocol", "h.player.Protocol().GreaterEqual", "h.player.Disconnect",
+   "bundle.Status.Intermediate", "bundle.ResponsePacket", "newPlayerResourcePackStatusEvent", "event.FireParallel",
+   "func:{", "}", "shouldDisconnectForForcePack", "e.Status", "e.PackInfo", "event.OverwriteKick", "errors.Join",
+   "player.BackendInFlight", "backend.WritePacket", "player.Protocol", "queued.RequestPacket", "player.WritePacket",
+   -- lock-free methods / helpers whose own call lists are checked below
+   "h.handleResponse", "h.tickResourcePackQueue", "h.HandleResponseResult", "h.SendResourcePackRequestPacket",
+   "handleResponseResult", "sendResourcePackRequestPacket", "h.l.shouldDisconnectForForcePack"]
+
+theorem legacy_locked_region_is_closed :
+    (∀ c ∈ Gate.Gen.C27.legacyHandleResponseCalls, c ∈ lockFreeCalls) ∧
+    (∀ c ∈ Gate.Gen.C27.legacyTickCalls, c ∈ lockFreeCalls) ∧
+    (∀ c ∈ Gate.Gen.C27.legacyHandleResultCalls, c ∈ lockFreeCalls) ∧
+    (∀ c ∈ Gate.Gen.C27.legacySendRequestCalls, c ∈ lockFreeCalls) ∧
+    (∀ c ∈ Gate.Gen.C27.legacyShouldDisconnectCalls, c ∈ lockFreeCalls) ∧
+    (∀ c ∈ Gate.Gen.C27.legacy117ShouldDisconnectCalls, c ∈ lockFreeCalls) ∧
+    (∀ c ∈ Gate.Gen.C27.handleResponseResultCalls, c ∈ lockFreeCalls) ∧
+    (∀ c ∈ Gate.Gen.C27.sendRequestPacketCalls, c ∈ lockFreeCalls) ∧
+    -- between Lock and Unlock the two entry points call only these
+    (∀ c ∈ Gate.Gen.C27.legacyQueueCalls.drop 2, c ∈ lockFreeCalls) ∧
+    (∀ c ∈ Gate.Gen.C27.legacyOnResponseCalls.drop 2, c ∈ lockFreeCalls) ∧
+    -- the 1.17 wrapper only delegates
+    Gate.Gen.C27.legacy117OnResponseCalls = ["h.l.onResourcePackResponse", "return"] ∧
+    Gate.Gen.C27.legacy117QueueCalls = ["h.l.QueueResourcePack", "return"] := by decide
+
+/-- Closed world for the modern handler: with its mutex held, `OnResourcePackResponse` calls only these; its tick
+    merely TRIES to read-lock (`modern_lock_regions`). -/
+def modernLockedCalls : List String :=
+  ["m.outstandingPacks.Get", "m.outstandingPacks.Remove", "bundle.Status.Intermediate", "len", "delete", "return",
+   "newPlayerResourcePackStatusEvent", "event.FireParallel", "func:{", "}", "e.Status", "e.PackInfo", "e.OverwriteKick",
+   "m.player.Disconnect", "errors.Join", "m.HandleResponseResult", "m.tickResourcePackQueue",
+   "m.TryRLock", "m.RUnlock", "m.SendResourcePackRequestPacket", "handleResponseResult", "sendResourcePackRequestPacket"]
+
+theorem modern_locked_region_is_closed :
+    (∀ c ∈ Gate.Gen.C27.modernOnResponseCalls.drop 2, c ∈ modernLockedCalls) ∧
+    (∀ c ∈ Gate.Gen.C27.modernTickCalls, c ∈ modernLockedCalls) ∧
+    (∀ c ∈ Gate.Gen.C27.modernHandleResultCalls, c ∈ modernLockedCalls) ∧
+    (∀ c ∈ Gate.Gen.C27.modernSendRequestCalls, c ∈ modernLockedCalls) := by decide
 
 /-- the response is handled (and reported) before the queue is ticked, once; an empty queue is popped with the
     non-panicking `TryPopFront` -/
